@@ -155,13 +155,42 @@ def run(tier):
             dates = sorted(r["sd"] for r in h["rows"]) or ["2019-03-05"]
             date = dates[len(dates) * 2 // 3]
             inputs.append((i, p, gen.init_args(h.get("init", {})), date, text, kind))
+        # two shapes that depend on more than one input object: (a) the same security settling on the same day in two files
+        # given in order; (b) an opening position for one security next to another security that only another affiliate holds
+        # and that has a split for all affiliates
+        extra_paths = {}
+        for j in range({"quick": 1, "thorough": 6}[tier]):
+            rng = common.rng_for(seed, PROP, "twofile", j)
+            i = n_inputs + 2 * j
+            d0 = "20%02d-03-04" % rng.randint(15, 22)
+            fa = ["security,trade date,settlement date,action,shares,amount/share,commission,currency,affiliate"]
+            fb = list(fa)
+            for k in range(rng.randint(2, 5)):
+                sec = rng.choice(["FOO", "BAR", "QQQ"])
+                fa.append("%s,%s,%s,Buy,%d,%d.00,0,CAD,%s" % (sec, d0, d0, 10 * (k + 1), 10 + k, rng.choice(["", "Spouse"])))
+                fb.append("%s,%s,%s,Sell,%d,%d.50,0,CAD," % (sec, d0, d0, 5, 12 + k))
+            pa, pb = os.path.join(wd, "in%da.csv" % i), os.path.join(wd, "in%db.csv" % i)
+            open(pa, "w").write("\n".join(fa) + "\n")
+            open(pb, "w").write("\n".join(fb) + "\n")
+            extra_paths[i] = [pa, pb]
+            inputs.append((i, pa, [], d0, "\n".join(fa + fb), 5))
+            i2 = i + 1
+            y = rng.randint(2015, 2022)
+            rows = ["security,trade date,settlement date,action,shares,amount/share,commission,currency,split ratio,affiliate"]
+            for sec in ["BAR", "QQQ", "VTI", "XYZ"][:rng.randint(1, 4)]:
+                rows += ["%s,%d-01-10,%d-01-10,Buy,10,10.00,0,CAD,,Spouse" % (sec, y, y), "%s,%d-02-10,%d-02-10,Split,,,,,2-for-1," % (sec, y, y),
+                         "%s,%d-03-10,%d-03-10,Sell,5,6.00,0,CAD,,Spouse" % (sec, y, y)]
+            rows += ["FOO,%d-01-15,%d-01-15,Buy,5,10.00,0,CAD,," % (y, y), "FOO,%d-04-15,%d-04-15,Sell,5,12.00,0,CAD,," % (y, y)]
+            p2 = os.path.join(wd, "in%d.csv" % i2)
+            open(p2, "w").write("\n".join(rows) + "\n")
+            inputs.append((i2, p2, ["FOO:10:100", "ABC:1:1"], "%d-03-01" % y, "\n".join(rows) + "\n", 6))
         jobs = []
         for i, p, init, date, text, kind in inputs:
             sub = os.path.join(wd, "i%d" % i)
             os.makedirs(sub, exist_ok=True)
             for cname, cargs in COMMANDS:
                 for rep in range(N):
-                    jobs.append((sub, [p], init, cname, cargs, date, rep))
+                    jobs.append((sub, extra_paths.get(i, [p]), init, cname, cargs, date, rep))
         results = common.pmap(run_once, jobs)
         by = {}
         for job, r in zip(jobs, results):
